@@ -25,6 +25,10 @@ class ProfileData(object):
             "in": self.invocation,
         }
 
+    def get_iteration(self):
+        """A profile covers all iterations of its invocation."""
+        return None
+
     def as_str_list(self, persisted_run_id: int):
         as_json = json.dumps(self.processed_data)
         return ([str(self.invocation), str(self.num_iterations)]
